@@ -26,6 +26,7 @@ def apply():
     from crosshair.core import NoTracing, realize
     from crosshair.tracers import ResumedTracing
     from crosshair.core import CrossHairValue
+    from crosshair.util import CrossHairInternal
     import crosshair.libimpl.builtinslib as bl
 
     # (2) hash-based set(): ParseState.__eq__ ignores children while __hash__ includes them and
@@ -102,10 +103,21 @@ def apply():
     tracers.PatchingModule.add = add
 
     # (4) slice-local realisation of symbolic strings: realise only the code points in view.
-    def _realize_view(self):
+    def _view(self):
         cps = self._codepoints
         n = realize(len(cps))
         return "".join(chr(realize(cps[i])) for i in range(n))
+
+    def _realize_view(self):
+        try:
+            return _view(self)
+        except CrossHairInternal:
+            # a view with SYMBOLIC slice bounds (s[a:b], a and b symbolic) reached with tracing off (realize() switches it
+            # off): its length is arithmetic on symbolic ints, which needs the tracer
+            if tracers.is_tracing():
+                raise
+            with tracers.ResumedTracing():
+                return _view(self)
 
     bl.LazyIntSymbolicStr.__ch_realize__ = _realize_view
 
